@@ -109,9 +109,10 @@ func (p c12) Gen(t *rapid.T, env *Env) (*Case, []*Out) {
 		prefix := ""
 		var ko *KeyOrder
 		var kinds []string
-		mode := rapid.IntRange(0, 10).Draw(t, "mode")
+		mode := rapid.IntRange(0, 11).Draw(t, "mode")
 		vargs := args
 		sp := simrt.Spec{}
+		var stale []simrt.Node
 		apply := func(mode int) {
 			switch mode {
 			case 0:
@@ -169,6 +170,36 @@ func (p c12) Gen(t *rapid.T, env *Env) (*Case, []*Out) {
 				}
 				vargs = respell(t)
 				kinds = append(kinds, "respell")
+			case 11:
+				// a repeated run into the same place: every output file of the reference run already exists, holding
+				// something else (the previous, longer revision; an unrelated file; a torn copy; the very same bytes)
+				refOut := Outputs(&c.Runs[0].Spec, o0)
+				var names []string
+				for n := range refOut {
+					if n != "-" {
+						names = append(names, n)
+					}
+				}
+				if o0.Res.Exit != 0 || len(names) == 0 {
+					kinds = append(kinds, "repeat")
+					return
+				}
+				sort.Strings(names)
+				for _, n := range names {
+					old := refOut[n]
+					switch rapid.IntRange(0, 4).Draw(t, "stale") {
+					case 0:
+						old = append(append([]byte(nil), old...), []byte("\n// trailing text of an earlier, longer revision\ntype StaleLeftover struct{ A, B, C int }\n")...)
+					case 1:
+						old = bytes.Repeat([]byte("unrelated file content, longer than anything generated here\n"), 400)
+					case 2:
+						old = old[:len(old)/2]
+					case 3:
+						old = []byte{}
+					}
+					stale = append(stale, simrt.Node{Path: n, Kind: "f", Data: old})
+				}
+				kinds = append(kinds, "rerun")
 			case 9:
 				// everything at once
 				sp.MapDefault = "reverse"
@@ -185,6 +216,12 @@ func (p c12) Gen(t *rapid.T, env *Env) (*Case, []*Out) {
 		base := mkSpec(prefix, ko, vargs)
 		base.MapDefault, base.MapOrders, base.Chunks = sp.MapDefault, sp.MapOrders, sp.Chunks
 		base.Clock, base.Pid, base.Host, base.Env = sp.Clock, sp.Pid, sp.Host, sp.Env
+		for _, n := range stale {
+			if prefix != "" {
+				n.Path = MapAbs(prefix, w.Root, n.Path)
+			}
+			base.FS = append(base.FS, n)
+		}
 		label := strings.Join(kinds, "+")
 		c.Runs = append(c.Runs, Run{Label: label, Spec: base})
 		meta.Prefixes = append(meta.Prefixes, prefix)
@@ -270,6 +307,25 @@ func (p c12) Eval(c *Case, outs []*Out) []Discrepancy {
 			continue
 		}
 		got := relOutputs(&c.Runs[i], o, meta.Prefixes[i])
+		if strings.Contains(meta.Kinds[i], "rerun") {
+			// outputs existed before the run: what counts is what the files hold afterwards (a tool may
+			// legitimately leave a file alone that already holds the right bytes)
+			final := map[string][]byte{}
+			for _, n := range o.Res.FS {
+				if n.Kind != "d" {
+					q := n.Path
+					if meta.Prefixes[i] != "" {
+						q = UnmapAbs(meta.Prefixes[i], "/w", q)
+					}
+					final[q] = n.Data
+				}
+			}
+			for n := range ref {
+				if b, ok := final[n]; ok && n != "-" {
+					got[n] = b
+				}
+			}
+		}
 		var names []string
 		for n := range ref {
 			names = append(names, n)
